@@ -148,7 +148,7 @@ CHECKS = {
              "a parameter, or a process-lifetime object (class-/module-level mutable value, mutable default value, lru_cache result). Rules: no function mutates a process-lifetime object (inventory of ~70 objects and 18 mutable defaults; the CRC singletons are discharged by a "
              "re-initialised-before-use proof over init/update/digest field sets, MBXML.DEBUG by a diagnostic-only-reads rule, memo stores only when the key determines the value — every input in the backward slice of the stored value is a variable the key preserves); no memoised function hands its mutable result to the caller of an entry point; no class-/module-level one-shot iterator (also when it is the result of a library function that returns one); no codec function mutates a buffer parameter that can come from outside, directly, through an alias or by passing it on "
              "(6 documented in-place helpers listed with reasons, call sites still checked); read-path methods apply no toggling in-place operation to self and keep no memo on the object; no codec function or import-time default expression reaches a clock / random source or the salted builtin hash(). "
-             "A probe module with one seeded violation per rule is analysed on every run (positive controls) together with pure twins. next() advances an iterator in place; stateful handles (itertools, incremental codecs, ...) are neither class-level constants nor memo values; no codec function returns a view of a class-level buffer; the CRC register's init must not alias a configuration object.",
+             "A probe module with one seeded violation per rule is analysed on every run (positive controls) together with pure twins. next() advances an iterator in place; stateful handles (itertools, incremental codecs, ...) are neither class-level constants nor memo values; no codec function returns a view of a class-level buffer; the CRC register's init must not alias a configuration object; __repr__ / __str__ / __len__ / __eq__ / __hash__ store nothing on the object or on what it holds.",
         technique="flow-sensitive intraprocedural alias analysis with interprocedural mutation / return-alias summaries, field-sensitive shared-origin store, call-graph reachability; must-pass-through + field-set rule for the CRC register",
         note="decides the absence of every mechanism by which call history could matter (shared mutable state, argument aliasing, clock), not result equality over histories as such; unresolved receivers are over-approximated by method name (reported only when they reach shared state); "
              "external library calls assumed non-mutating except a listed set; threads out of scope",
